@@ -111,7 +111,7 @@ fn float_case<const W: usize>(id: u64, bits: u64) {
     crate::vcheck!(elem_ok(&w.working_buffer, id, sl_of(W), 8, bits), "float element = id bytes ++ size field of exactly the requested width ++ the 8 big-endian bytes of the IEEE-754 binary64 pattern");
 }
 
-//@K name=k_w_uint_0_val unwind=10 props=C16,C01,C09 stub=tool_fmt
+//@K name=k_w_uint_0_val unwind=10 props=C16,C01,C09,C02 stub=tool_fmt
 pub fn h_w_uint_0_val() { uint_case::<0>(ID_A, src::u64_()) }
 //@K name=k_w_uint_0_id unwind=10 props=C16,C01,C09 stub=tool_fmt
 pub fn h_w_uint_0_id() { uint_case::<0>(src::u64_(), 0x12u64) }
@@ -147,7 +147,7 @@ pub fn h_w_uint_7_id() { uint_case::<7>(src::u64_(), 0x12u64) }
 pub fn h_w_uint_8_val() { uint_case::<8>(ID_A, src::u64_()) }
 //@K name=k_w_uint_8_id unwind=10 props=C16,C01,C09 tier=thorough stub=tool_fmt
 pub fn h_w_uint_8_id() { uint_case::<8>(src::u64_(), 0x12u64) }
-//@K name=k_w_int_0_val unwind=10 props=C16,C01,C09 stub=tool_fmt
+//@K name=k_w_int_0_val unwind=10 props=C16,C01,C09,C02 stub=tool_fmt
 pub fn h_w_int_0_val() { int_case::<0>(ID_A, src::i64_()) }
 //@K name=k_w_int_0_id unwind=10 props=C16,C01,C09 tier=thorough stub=tool_fmt
 pub fn h_w_int_0_id() { int_case::<0>(src::u64_(), -0x12i64) }
@@ -183,7 +183,7 @@ pub fn h_w_int_7_id() { int_case::<7>(src::u64_(), -0x12i64) }
 pub fn h_w_int_8_val() { int_case::<8>(ID_A, src::i64_()) }
 //@K name=k_w_int_8_id unwind=10 props=C16,C01,C09 tier=thorough stub=tool_fmt
 pub fn h_w_int_8_id() { int_case::<8>(src::u64_(), -0x12i64) }
-//@K name=k_w_float_0_val unwind=10 props=C16,C01,C09 stub=tool_fmt
+//@K name=k_w_float_0_val unwind=10 props=C16,C01,C09,C02 stub=tool_fmt
 pub fn h_w_float_0_val() { float_case::<0>(ID_A, src::u64_()) }
 //@K name=k_w_float_0_id unwind=10 props=C16,C01,C09 stub=tool_fmt
 pub fn h_w_float_0_id() { float_case::<0>(src::u64_(), 0x400921fb54442d18u64) }
